@@ -213,6 +213,11 @@ func runC18A(r *simrt.Run, tier Tier) Outcome {
 				op.Atom = r.Choose(len(uni), "c18.op.atom")
 			case 3:
 				op.Atom = r.Choose(len(pats), "c18.op.pat")
+			case 4:
+				// now and then the store is merged into itself (a set union with itself: no change)
+				if r.OneIn(4, "c18.op.selfmerge") {
+					op.Atom = 1
+				}
 			}
 			ops[t] = append(ops[t], op)
 		}
@@ -261,8 +266,13 @@ func runC18A(r *simrt.Run, tier Tier) Outcome {
 						return nil
 					})
 				case 4:
-					in.Mask = mergeMask
-					store.Merge(other)
+					if op.Atom == 1 {
+						in.Mask = 0
+						store.Merge(store)
+					} else {
+						in.Mask = mergeMask
+						store.Merge(other)
+					}
 				case 5:
 					out.N = store.EstimateFactCount()
 				case 6:
@@ -284,7 +294,11 @@ func runC18A(r *simrt.Run, tier Tier) Outcome {
 				case 3:
 					d += fmt.Sprintf("(%s) = %s", pats[op.Atom].desc, maskStr(out.Mask, uni))
 				case 4:
-					d += fmt.Sprintf("(%s)", maskStr(mergeMask, uni))
+					if op.Atom == 1 {
+						d += "(the store itself)"
+					} else {
+						d += fmt.Sprintf("(%s)", maskStr(mergeMask, uni))
+					}
 				case 5:
 					d += fmt.Sprintf("() = %d", out.N)
 				case 6:
